@@ -622,8 +622,11 @@ func runC41(c *fw.Ctx) {
 			reported++
 		}
 	}
-	space(sigmaFull, lenFull, -1)
-	space(sigmaDeep, lenDeep, -1)
+	onlyNew := os.Getenv("S13_ONLY_NEW") != "" // development aid: skip the unchanged spaces
+	if !onlyNew {
+		space(sigmaFull, lenFull, -1)
+		space(sigmaDeep, lenDeep, -1)
+	}
 	space(sigmaBytes, lenBytes, -1)
 
 	// Structured spaces (explicit case lists): runs of adjacent specials followed
@@ -773,7 +776,9 @@ func runC41(c *fw.Ctx) {
 	c.Bound("long_and_many_args_space", fmt.Sprintf("%d cases: words of 4095..65537 bytes with specials at the ends and around 4096/8192/32768/65536, runs of 1000..10000 specials (`sh -c` per case too), 3..6 arguments", len(miscCases)))
 	list("misc", miscCases, c.Thorough())
 
-	space(sigmaFull, -1, lenFaithful) // one `sh -c` per case and shell: last, it is the slow part
+	if !onlyNew {
+		space(sigmaFull, -1, lenFaithful) // one `sh -c` per case and shell: last, it is the slow part
+	}
 	c.Extra("cases_where_the_tokenizer_model_made_no_claim", conservative)
 	c.Extra("cases_bad_in_the_batch_filter", batchBad)
 	c.Extra("cases_unexamined_in_dirty_chunks", unexamined)
